@@ -232,8 +232,11 @@ fn judge_from_datetime(rec: &mut Rec, i: i128, off: i32, by_ref: bool) {
     rec.bin(if i < 0 { "from-datetime/before-0001" } else { "from-datetime/AD" });
     rec.nontrivial(hash_i128s(&[i, off as i128, by_ref as i128]));
     let exp = i.rem_euclid(D) as u64;
+    let Some((dt, _)) = sane_value(i, off) else {
+        rec.bin(super::diff::SKIP_START);
+        return;
+    };
     let r = trap(|| {
-        let dt = mk_off(i, off);
         let t: Time = if by_ref { Time::from(&dt) } else { Time::from(dt) };
         let shown_equal = t.format("HH:mm:ss.nnnnn") == dt.format("HH:mm:ss.nnnnn");
         (observe(&t, exp), shown_equal)
